@@ -1,0 +1,63 @@
+//! Verification hooks. Only compiled with `--cfg star_frame_verif`; never part of a normal build.
+//!
+//! Everything here is thread local and inert until a harness installs a handler or value.
+use crate::prelude::Pubkey;
+use pinocchio::{
+    account_info::AccountInfo,
+    sysvars::{clock::Clock, rent::Rent},
+};
+use std::cell::{Cell, RefCell};
+
+/// Everything a CPI hands to the runtime, captured just before the `invoke_signed` syscall.
+#[derive(Debug, Clone)]
+pub struct CpiRecord {
+    pub program_id: Pubkey,
+    pub data: Vec<u8>,
+    /// `(key, is_signer, is_writable)` for every written meta, in order.
+    pub metas: Vec<(Pubkey, bool, bool)>,
+    /// Every written account info, in order.
+    pub infos: Vec<AccountInfo>,
+    /// The length of the backing arrays the account set declared.
+    pub declared_len: usize,
+    pub signer_seeds: Vec<Vec<Vec<u8>>>,
+}
+
+/// Returns `Some(result)` to stand in for the runtime, `None` to fall through to the real syscall.
+pub type CpiHandler = Box<dyn FnMut(&CpiRecord) -> Option<crate::Result<()>>>;
+
+/// One raw memory operation performed by the unsized type system.
+#[derive(Debug, Clone, Copy, PartialEq, Eq)]
+pub enum RawAccess {
+    /// `sol_memmove(dst, src, len)` with absolute addresses.
+    Move { dst: usize, src: usize, len: usize },
+    /// `unsized_data_realloc` from `old_len` to `new_len` of the buffer starting at `data`.
+    Realloc { data: usize, old_len: usize, new_len: usize },
+}
+
+thread_local! {
+    pub static CPI_HANDLER: RefCell<Option<CpiHandler>> = const { RefCell::new(None) };
+    pub static RENT: Cell<Option<Rent>> = const { Cell::new(None) };
+    pub static CLOCK: Cell<Option<Clock>> = const { Cell::new(None) };
+    pub static RAW_TRACE: RefCell<Option<Vec<RawAccess>>> = const { RefCell::new(None) };
+}
+
+#[inline]
+pub fn trace_raw(access: RawAccess) {
+    RAW_TRACE.with_borrow_mut(|t| {
+        if let Some(t) = t {
+            t.push(access);
+        }
+    });
+}
+
+pub fn handle_cpi(record: impl FnOnce() -> CpiRecord) -> Option<crate::Result<()>> {
+    // Take the handler out while it runs so a handler may itself perform CPIs.
+    let mut handler = CPI_HANDLER.with_borrow_mut(Option::take)?;
+    let res = handler(&record());
+    CPI_HANDLER.with_borrow_mut(|h| {
+        if h.is_none() {
+            *h = Some(handler);
+        }
+    });
+    res
+}
